@@ -34,6 +34,13 @@ NOTES = {
     'C05-m4': 'first missed in the quick tier (labels <= 2): T = L = 3 added to the quick tier (the thorough tier had it)',
     'C18-m3': 'NOT detected: LayoutEngine.parse (first sentence of C18, not claimed, 7.6)',
     'C18-m4': 'NOT detected: LayoutEngine.parse (first sentence of C18, not claimed, 7.6)',
+    'C20-m3': 'first missed (transcribe_batch\'s greedy loop was not encoded): the loop now runs over an abstract network (arg-max symbol = uninterpreted function of the line and the symbols fed so far); claim: a line gets inside a batch the transcription it gets alone',
+    'C20-m4': 'first a harness error (real replay of the witnesses disagreed with the symbolic prediction: the row-level torch model copied on indexing and on +=); indexing now yields views and += writes through, inputs are cloned per call as the engine does',
+    'C10-m3': 'NOT detected: get_crop_inputs scales the caller\'s heights array in place (needs LINE_SCALE != 1 and a second crop); get_crop_inputs is not executed by the check (geometric clauses, 7.6)',
+    'C10-m4': 'first a harness error (the failing case did not carry which exception kind was raised; OverflowError was not among the kinds); fixed, detected',
+    'C19-m4': 'NOT detected (also not by the C16 check): changes which frames count towards the last character\'s confidence; no clause of C16/C19 fixes that window, the merge still keeps the most confident result under the changed measure',
+    'C08-m4': 'not a clause the C08 check looks at (resume bookkeeping in load_already_processed_files); the C17 check reports it (resume:output-missing:logits), stored as C17-from-C08-m4',
+    'C15-m3': 'the change is in levenshtein_distance (C13\'s anchor; C15 assumes it exact): the C13 check reports it (dist:not-minimal), stored as C13-from-C15-m3',
     'C03-m3': 'first missed (aliasing: the caller\'s start state overwritten in place for k = 1): the supplied state object is compared with its value before the call',
 }
 
@@ -62,7 +69,9 @@ Clauses of *claimed* properties that are not decided (each check's `level_claime
 |---|---|---|
 | C10 | width = baseline length x target height / line height, uniform columns, rows perpendicular to the baseline, "every non-degenerate baseline is actually cropped" | sqrt, rotation and an interpolant inside scipy: the harness written for the domain clause (uninterpreted interp1d, loose sqrt, lazy products) did not return from z3 within minutes and is not scheduled.  Observed concretely while designing (not a finding of a check): a baseline of >= 4 points whose rotated length has fractional part >= 0.9, e.g. (0,0) ... (13,5), makes the cubic interpolant raise and crop() return a blank image |
 | C18 | "exactly one text line per sufficiently separated ridge; end points, vertical position and heights match the map" | scipy.ndimage convolution, dilation, labelling and percentiles over whole maps (C kernels whose trip count grows with the image); only the rotation / coordinate sentence is claimed |
-| C12 | what the de-skew rotation computes numerically | shapely.affinity; the rotation is an abstract invertible map (rotate by -a, then by +a = identity) |
+| C12 | what the de-skew rotation computes numerically (incl. dtype truncation of integer coordinates: seeded C12-m4) | shapely.affinity; the rotation is an abstract invertible map (rotate by -a, then by +a = identity) |
+| C10 | that get_crop_inputs leaves its arguments alone (seeded C10-m3: heights scaled in place) | get_crop_inputs is not executed symbolically (first row) |
+| C16, C07 | behaviour when exp underflows (frames far below the global maximum: seeded C16-m4, C07-m3's main effect) | reals stand for floats |
 | C07 | transformer-mode window splitting; sparse storage on more than one frame | C15 covers the merge; two frames of softmax quotients do not return from nlsat |
 | C16 | end-to-end confidence with the real align_text beyond F = 2 | polynomial degree F comparisons in nlsat; covered by the decomposition C05 + arbitrary alignment |
 | C01, C06 | XML escaping / Unicode legality / byte-level identity | inside lxml / libxml2 (stub assumes the round trip) |
